@@ -234,7 +234,37 @@ def check(ctx, s, opts, drv, pending):
     texts = [[str(c[i]) for c in coeffs] for i in range(size)]
     drv.append({"id": len(drv), "op": "print", "opts": opts, "a": {k: poly_to_struct(p)[k] for k in ("names", "shape", "terms")},
                 "texts": texts, "zero": str(numpy.zeros(1, dtype=p.dtype).item())})
-    pending.append((case, tags, flatten(split_array(st))))
+    pending.append((case, tags, flatten(split_array(st)), "print"))
+    if s["dtype"].startswith(("int", "uint")) and mult == "*" and exp == "**":
+        # text level: the renderer/reader pair proved in Np/Proofs/PrintText.lean against the real str()
+        drv.append({"id": len(drv), "op": "printint", "opts": opts, "a": {k: poly_to_struct(p)[k] for k in ("names", "shape", "terms")}})
+        pending.append((case, tags, flatten(split_array(st)), "printint"))
+        ctx.count("text-level")
+
+
+def compare_answer(ctx, case, tags, elems, mode, ans):
+    if ans.get("status") != "ok":
+        ctx.fail(case, f"model driver refused the case: {ans}", tags + ["driver"])
+        return
+    for i, (et, el) in enumerate(zip(elems, ans["elements"])):
+        if el["text"] != et:
+            ctx.fail(case, f"element {i}: str gives {et!r}, the {'proved text renderer' if mode == 'printint' else 'printer model'} renders {el['text']!r}", tags + ["text", mode])
+            return
+        if mode == "print":
+            check_order(ctx, case, tags, el["tokens"], case["opts"])
+        else:
+            # the proved reader must recover exactly the non-zero terms of this element (0 -> single zero constant)
+            d = elem_den(den_of_struct(case["a"]), i)
+            names = sorted(case["a"]["names"])
+            got = {}
+            for coef, expo in (el["read"] or []):
+                m = tuple((n, e) for n, e in zip(case["a"]["names"], expo) if e)
+                if coef:
+                    got[tuple(sorted(m))] = got.get(tuple(sorted(m)), 0) + coef
+            want = {tuple(sorted(m)): v for m, v in d.items()}
+            if el["read"] is None or {k: to_exact(v) for k, v in got.items()} != want:
+                ctx.fail(case, f"element {i}: text {et!r} is read by the proved reader as {el['read']}, the polynomial is {d}", tags + ["reader"])
+                return
 
 
 def check_order(ctx, case, tags, tokens, opts):
@@ -259,6 +289,11 @@ def run_sympy(ctx, rng, n):
     for i in range(n):
         kind = gen.choice(rng, ["int", "float"])
         s = gen.gen_struct(rng, shape=(), kind=kind, names=gen.gen_names(rng, 1, 3), maxexp=3)
+        if kind == "float" and i % 2:
+            # full-precision doubles (15-17 significant digits, several magnitudes): the export must not round them
+            for t in s["terms"]:
+                t[1] = [coef_json(Fraction(float(rng.random() * 10.0 ** int(rng.integers(-6, 7)) * (-1) ** int(rng.integers(0, 2)))))
+                        for _ in t[1]]
         p = gen.materialize(s)
         ctx.evaluations += 1
         try:
@@ -288,12 +323,8 @@ def run(ctx):
         if ctx.out_of_time():
             break
     answers = run_driver(drv)
-    for (case, tags, elems), ans in zip(pending, answers):
-        for i, (et, el) in enumerate(zip(elems, ans["elements"])):
-            if el["text"] != et:
-                ctx.fail(case, f"element {i}: str gives {et!r}, the printer model renders {el['text']!r}", tags + ["text"])
-                break
-            check_order(ctx, case, tags, el["tokens"], case["opts"])
+    for (case, tags, elems, mode), ans in zip(pending, answers):
+        compare_answer(ctx, case, tags, elems, mode, ans)
     run_sympy(ctx, ctx.rng("sympy"), 40 if ctx.quick else 400)
     ctx.sample({"polynomial": "2*q1-q0-3", "opts": settings[1], "tokens": [[2, [0, 1], True], [-1, [1, 0], False], [-3, [0, 0], True]]})
 
@@ -306,8 +337,6 @@ def replay(ctx, case):
         return None if den_of_struct(poly_to_struct(back)) == den_of_struct(case["a"]) else f"{back} != {p}"
     drv, pending = [], []
     check(ctx, case["a"], case["opts"], drv, pending)
-    for (c, tags, elems), ans in zip(pending, run_driver(drv)):
-        for i, (et, el) in enumerate(zip(elems, ans["elements"])):
-            if el["text"] != et:
-                ctx.fail(c, f"element {i}: str gives {et!r}, the printer model renders {el['text']!r}", tags + ["text"])
+    for (c, tags, elems, mode), ans in zip(pending, run_driver(drv)):
+        compare_answer(ctx, c, tags, elems, mode, ans)
     return ctx.failures[n]["what"] if len(ctx.failures) > n else None
